@@ -74,6 +74,17 @@ def main(inp, outp):
                     "how": "StateVector(origin of body b's frame, date).copy(frame=a) ; jpl.get_orbit(b, date).copy(frame=a)"}
             res["evaluations"] += 1
             res["traces"] += 1
+            # history: the states handed out by the kernel's propagators for the bodies of this chain are changed IN PLACE by
+            # their user (frame, form, a coordinate) just before the conversion at the same date - nothing a user does to an
+            # orbit he was given may alter later results
+            for k in list(pr["plus"]) + list(pr["minus"]):
+                try:
+                    o = jpl.get_orbit(fname(seglist[k - 1][1]), dl)
+                    o.frame = "EME2000"
+                    o.form = "spherical"
+                    o[0] = 1.0
+                except Exception:
+                    pass
             try:
                 got = np.asarray(StateVector([0, 0, 0, 0, 0, 0], dl, "cartesian", fname(b)).copy(frame=fname(a)), float)
                 if any(t == b for _c, t in seglist):
